@@ -94,13 +94,18 @@ Definition write_completion_tables (t : tables) : string :=
            end)
           (fmtln write_completion_tables_4 [("max_fallback_level", sN (t_maxlevel t))])).
 
-Definition write_subword_wrapper_fn (command : string) (id : N) (t : tables) : string :=
+Definition write_accepting_states (acc : list N) : string :=
+  fmtln write_accepting_states_0
+    [("initializer", join " " (map (fun s => append "[" (append (sN s) "]=1")) acc))].
+
+Definition write_subword_wrapper_fn (command : string) (id : N) (t : tables) (acc : list N) : string :=
   append (fmtln write_subword_wrapper_fn_0 [("command", command); ("id", sN id)])
+  (append (write_accepting_states acc)
   (append (write_literals t)
   (append (write_match_transitions t)
   (append (write_completion_tables t)
   (append (fmtln write_subword_wrapper_fn_1 [("command", command)])
-          (fmtln write_subword_wrapper_fn_2 []))))).
+          (fmtln write_subword_wrapper_fn_2 [])))))).
 
 Definition write_subword_shape_fn (command : string) (shape_id : N) (t : tables) : string :=
   append (fmtln write_subword_shape_fn_0 [("command", command); ("shape_id", sN shape_id)])
@@ -109,11 +114,12 @@ Definition write_subword_shape_fn (command : string) (shape_id : N) (t : tables)
   (append (fmtln write_subword_shape_fn_1 [("command", command)])
           (fmtln write_subword_shape_fn_2 [])))).
 
-Definition write_subword_shape_wrapper_fn (command : string) (id shape_id : N) (t : tables) : string :=
+Definition write_subword_shape_wrapper_fn (command : string) (id shape_id : N) (t : tables) (acc : list N) : string :=
   append (fmtln write_subword_shape_wrapper_fn_0 [("command", command); ("id", sN id)])
+  (append (write_accepting_states acc)
   (append (write_literals t)
   (append (fmtln write_subword_shape_wrapper_fn_1 [("command", command); ("shape_id", sN shape_id)])
-          (fmtln write_subword_shape_wrapper_fn_2 []))).
+          (fmtln write_subword_shape_wrapper_fn_2 [])))).
 
 Definition write_subword_fn (command : string) (needs_cmd needs_star : bool) : string :=
   let env := [("command", command); ("MATCH_FN_NAME", match_fn_name_bash)] in
@@ -134,6 +140,12 @@ Definition tables_of_id (a : alltables) (id : N) : res tables :=
   | None => Panic "tables_from_id.get().unwrap()"
   end.
 
+Definition accepting_of_id (a : alltables) (id : N) : res (list N) :=
+  match assocN id (a_subaccepting a) with
+  | Some l => Ok l
+  | None => Panic "accepting_from_id.get().unwrap()"
+  end.
+
 Definition script_id (a : alltables) (pi : N) : res N :=
   match find (fun e => N.eqb (fst (fst e)) pi) (a_subwords a) with
   | Some e => Ok (snd (fst e))
@@ -146,11 +158,13 @@ Definition write_group (command : string) (a : alltables) (shape_id : N) (group 
   | [] => Panic "chunk_by: empty chunk"
   | [id] =>
       do t <- tables_of_id a id;
-      Ok (append (write_subword_wrapper_fn command id t) nl)
+      do acc <- accepting_of_id a id;
+      Ok (append (write_subword_wrapper_fn command id t acc) nl)
   | leader :: _ =>
       do lt <- tables_of_id a leader;
       do ws <- omap (fun id => do t <- tables_of_id a id;
-                               Ok (append (write_subword_shape_wrapper_fn command id shape_id t) nl)) group;
+                               do acc <- accepting_of_id a id;
+                               Ok (append (write_subword_shape_wrapper_fn command id shape_id t acc) nl)) group;
       Ok (append (write_subword_shape_fn command shape_id lt) (append nl (sconcat ws)))
   end.
 
